@@ -237,7 +237,7 @@ def e2e_outside(chk, quick):
             a, b = mp.Pipe()
             p = mp.Process(target=_e2e_child, args=(ctx, cls, outer, b))
             p.start()
-            res = a.recv() if a.poll(120) else ('timeout', '', 0)
+            res = a.recv() if a.poll(900) else ('timeout', '', 0)
             p.join(10)
             if p.is_alive():
                 p.kill()
